@@ -48,7 +48,7 @@ def qRequired : ActName → Bool
 
 /-- actions that read the byte under the cursor -/
 def readsInp : ActName → Bool
-  | .updateTagNameHash | .finishAttrValue => true
+  | .updateTagNameHash | .finishAttrValue | .emitCurrentToken | .emitCurrentTokenAndEof => true
   | _ => false
 
 def absCalls : List Call → Ab → Option Ab
@@ -67,32 +67,61 @@ def EPanic {α : Type} : Except Err α → Prop
 
 variable {κ : Type}
 
+/-- outcome of a sink operation in the two runs: the split run hits a panic branch, or the results are
+equal and, when they are `ok`, the sink states are related -/
+def OpRel {α : Type} (K0 : κ → κ → Prop) (rs rw : κ × Except Err α) : Prop :=
+  EPanic rs.2 ∨ (rw.2 = rs.2 ∧ ((∃ a, rs.2 = .ok a) → K0 rs.1 rw.1))
+
+/-- the parts of a doctype lexeme are inside the split input (or the two inputs end together, so that a part
+out of range in one is out of range in the other): the silent `get` of `to_token` gives the same result -/
+def DtIn (inpS inpW : Bytes) (δ : Nat) : Option NonTagOutline → Prop
+  | some (.doctype d) => inpW.length = inpS.length + δ ∨ leNonTag inpS.length (.doctype d)
+  | _ => True
+
+theorem leNonTag_mono {U U' : Nat} {n : NonTagOutline} (h : U ≤ U') (hn : leNonTag U n) : leNonTag U' n := by
+  cases n with
+  | doctype d =>
+    obtain ⟨a, b, c⟩ := hn
+    have ho : ∀ o, leOR U o → leOR U' o := by
+      intro o ho; cases o with
+      | none => trivial
+      | some r => exact Nat.le_trans ho h
+    exact ⟨ho _ a, ho _ b, ho _ c⟩
+  | _ => trivial
+
+theorem dtIn_of {inpS inpW : Bytes} {δ np : Nat} {o : Option NonTagOutline}
+    (hin : np ≤ inpS.length ∨ inpW.length = inpS.length + δ) (hu : ∀ n, o = some n → leNonTag np n) : DtIn inpS inpW δ o := by
+  cases o with
+  | none => trivial
+  | some n =>
+    cases n with
+    | doctype d =>
+      rcases hin with h | h
+      · exact Or.inr (leNonTag_mono h (hu _ rfl))
+      · exact Or.inl h
+    | _ => trivial
+
 /-- What the proof needs from the sink: handling corresponding lexemes in `K`-related sink states gives
 equal results and related states (unless the split run hits a panic branch, e.g. a slice out of range);
 and a text lexeme the whole run emits in one piece is equivalent to the two pieces of the split run,
-the first of which (`d` bytes) the split run's sink has already received (`K d`). -/
-structure OpsSim (ops : SinkOps κ) (inpS inpW : Bytes) (δ : Nat) (K : Nat → κ → κ → Prop) : Prop where
+the first of which (`d` bytes) the split run's sink has already received (`K d`); `Loc ks pc p tt`: the sink
+recorded that the piece it received ended at position `p` of the split input (whose offset is `pc`) and
+had text type `tt`. -/
+structure OpsSim (ops : SinkOps κ) (inpS inpW : Bytes) (δ : Nat) (K : Nat → κ → κ → Prop)
+    (Loc : κ → Nat → Nat → TextType → Prop) : Prop where
   tag : ∀ pc raw o ks kw, K 0 ks kw →
-    EPanic (ops.handleTag inpS ⟨pc + δ, raw, o⟩ ks).2 ∨
-    ((ops.handleTag inpW ⟨pc, shR δ raw, shTag δ o⟩ kw).2 = (ops.handleTag inpS ⟨pc + δ, raw, o⟩ ks).2 ∧
-     K 0 (ops.handleTag inpS ⟨pc + δ, raw, o⟩ ks).1 (ops.handleTag inpW ⟨pc, shR δ raw, shTag δ o⟩ kw).1)
-  nonTag : ∀ pc raw (o : Option NonTagOutline) ks kw, K 0 ks kw →
-    EPanic (ops.handleNonTag inpS ⟨pc + δ, raw, o⟩ ks).2 ∨
-    ((ops.handleNonTag inpW ⟨pc, shR δ raw, o.map (shNonTag δ)⟩ kw).2 = (ops.handleNonTag inpS ⟨pc + δ, raw, o⟩ ks).2 ∧
-     K 0 (ops.handleNonTag inpS ⟨pc + δ, raw, o⟩ ks).1 (ops.handleNonTag inpW ⟨pc, shR δ raw, o.map (shNonTag δ)⟩ kw).1)
-  text : ∀ pc a x d tt ks kw, K d ks kw → 0 < d → δ ≤ a + d → a + d ≤ x →
-    EPanic (if a + d < x then ops.handleNonTag inpS ⟨pc + δ, ⟨a + d - δ, x - δ⟩, some (.text tt)⟩ ks else (ks, .ok ())).2 ∨
-    ((ops.handleNonTag inpW ⟨pc, ⟨a, x⟩, some (.text tt)⟩ kw).2
-        = (if a + d < x then ops.handleNonTag inpS ⟨pc + δ, ⟨a + d - δ, x - δ⟩, some (.text tt)⟩ ks else (ks, .ok ())).2 ∧
-     K 0 (if a + d < x then ops.handleNonTag inpS ⟨pc + δ, ⟨a + d - δ, x - δ⟩, some (.text tt)⟩ ks else (ks, .ok ())).1
-        (ops.handleNonTag inpW ⟨pc, ⟨a, x⟩, some (.text tt)⟩ kw).1)
-  textOk : ∀ pc raw tt ks,
+    OpRel (K 0) (ops.handleTag inpS ⟨pc + δ, raw, o⟩ ks) (ops.handleTag inpW ⟨pc, shR δ raw, shTag δ o⟩ kw)
+  nonTag : ∀ pc raw (o : Option NonTagOutline) ks kw, K 0 ks kw → DtIn inpS inpW δ o →
+    OpRel (K 0) (ops.handleNonTag inpS ⟨pc + δ, raw, o⟩ ks) (ops.handleNonTag inpW ⟨pc, shR δ raw, o.map (shNonTag δ)⟩ kw)
+  text : ∀ pc a x d tt ks kw, K d ks kw → Loc ks (pc + δ) (a + d - δ) tt → 0 < d → δ ≤ a + d → a + d ≤ x →
+    OpRel (K 0)
+      (if a + d < x then ops.handleNonTag inpS ⟨pc + δ, ⟨a + d - δ, x - δ⟩, some (.text tt)⟩ ks else (ks, .ok ()))
+      (ops.handleNonTag inpW ⟨pc, ⟨a, x⟩, some (.text tt)⟩ kw)
+  textOk : ∀ pc raw tt d ks kw, K d ks kw →
     EPanic (ops.handleNonTag inpS ⟨pc, raw, some (.text tt)⟩ ks).2 ∨
     (ops.handleNonTag inpS ⟨pc, raw, some (.text tt)⟩ ks).2 = .ok ()
-  startHint : ∀ n ns ks kw, K 0 ks kw →
-    (ops.startTagHint n ns kw).2 = (ops.startTagHint n ns ks).2 ∧ K 0 (ops.startTagHint n ns ks).1 (ops.startTagHint n ns kw).1
-  endHint : ∀ n ks kw, K 0 ks kw →
-    (ops.endTagHint n kw).2 = (ops.endTagHint n ks).2 ∧ K 0 (ops.endTagHint n ks).1 (ops.endTagHint n kw).1
+  startHint : ∀ n ns ks kw, K 0 ks kw → OpRel (K 0) (ops.startTagHint n ns ks) (ops.startTagHint n ns kw)
+  endHint : ∀ n ks kw, K 0 ks kw → OpRel (K 0) (ops.endTagHint n ks) (ops.endTagHint n kw)
 
 /-! ### Lemmas about the relations -/
 
